@@ -40,6 +40,19 @@ def handler(case):
         viols.append(("c06.not-normal", f"after the last repair (increment {last_failed}) and {end['k'] - last_failed} quiet increments: {end['normal'][:3]}"))
     elif normal_from is not None and last_failed and normal_from - last_failed > bound:
         viols.append(("c06.late", f"normal configuration reached {normal_from - last_failed} increments after the last repair, bound {bound}"))
+    # C06.returns_to_normal_mixed on the implementation: in the first increment after which no line is failed, let M bound
+    # the timers still running; ceil(M/dt)+2 increments later (manual or ICT-based, whatever the communication state) the
+    # configuration is normal and stays normal.  (Not applicable when sensors / switches fail by themselves.)
+    last_line_failed = max([r["k"] for r in steps if r["failed"]] + [0])
+    calm = [r for r in steps if r["k"] > last_line_failed]
+    if calm and last_line_failed and ops:
+        r0 = calm[0]
+        M = max([F(0)] + [F(x) for x in r0["timers"].values()] + [F(x) for x in r0["ptimers"].values()])
+        due = r0["k"] + math.ceil(M / dt) + 2
+        for r in calm:
+            if r["k"] >= due and r["normal"]:
+                viols.append(("c06.late-mixed", f"no line failed since increment {r0['k']}, timers then at most {M} h: not normal in increment {r['k']} (due {due}): {r['normal'][:2]}"))
+                break
     for b in v.ps.buses:
         if b.p_energy_shed_stack != 0:
             viols.append(("c06.still-shedding", f"{b.name} still sheds load at the end of the quiet period"))
